@@ -294,6 +294,10 @@ def make_guard_rule(name, atoms, statement):
                                     if a == 'tti' and has_field(n, ('time_to_idle',)):
                                         ok, why = True, 'time_to_idle.is_some() == false on this path'
                     verdicts[a] = (ok, why)
+                # the watermark test on the last-accessed time is implied by the one on the last-modified time: both stores start with the same
+                # reading at insert / update and reads only ever advance last_accessed (STALE-ts), so last_accessed >= last_modified >= valid_after
+                if 'va_ao' in verdicts and not verdicts['va_ao'][0] and verdicts.get('va_wo', (False,))[0]:
+                    verdicts['va_ao'] = (True, 'implied by the last-modified watermark test (last_accessed >= last_modified: STALE-ts, MUST-update-resets)')
                 r.instance(lookup=nid, hit=str(row['hit']), returns=fmt(p.ret)[:70], checks={a: w for a, (o, w) in verdicts.items()})
                 for a, (ok, why) in verdicts.items():
                     if not ok:
